@@ -323,6 +323,8 @@ func (c config) table() []sym {
 			tick,
 			{Name: "SR(A,ntp=0)", Op: opSR, SSRC: a, NTP: 0},
 			{Name: "SR(A,ntp4)+SR(B,ntp4+1s)", Op: opSR, SSRC: a, NTP: 0xFFFFFFFF_FFFFFFFF, More: []uint32{b}},
+			// a compound whose FIRST sender report is for an SSRC that is not bound
+			{Name: "SR(unbound)+SR(A,ntp5+1s)", Op: opSR, SSRC: 0x7777, NTP: 0x22222222_33333333, More: []uint32{a}},
 		}
 	case "mixed":
 		var t []sym
